@@ -28,6 +28,38 @@ class Unsupported(Exception):
     pass
 
 
+def c_unescape(v):
+    """Text of a C string literal as printed by clang (octal / hex escapes for non-ASCII bytes)."""
+    if v.startswith('R"'):
+        m = re.match(r'^R"([^(]*)\((.*)\)\1"$', v, re.S)
+        return m.group(2) if m else v
+    v = re.sub(r'^(u8|u|U|L)?"', '', v)
+    if v.endswith('"'):
+        v = v[:-1]
+    out = bytearray()
+    i = 0
+    simple = {'n': 10, 't': 9, 'r': 13, '\\': 92, '"': 34, "'": 39, '0': 0, 'a': 7, 'b': 8, 'f': 12, 'v': 11, '?': 63}
+    while i < len(v):
+        ch = v[i]
+        if ch == '\\' and i + 1 < len(v):
+            m = re.match(r'[0-7]{1,3}', v[i + 1:])
+            if m:
+                out.append(int(m.group(0), 8) & 255)
+                i += 1 + len(m.group(0))
+                continue
+            if v[i + 1] == 'x':
+                m = re.match(r'[0-9a-fA-F]+', v[i + 2:])
+                out.append(int(m.group(0), 16) & 255)
+                i += 2 + len(m.group(0))
+                continue
+            out.append(simple.get(v[i + 1], ord(v[i + 1])))
+            i += 2
+            continue
+        out += ch.encode('utf-8')
+        i += 1
+    return out.decode('utf-8', 'replace')
+
+
 def split_targs(s):
     out, depth, cur = [], 0, ''
     for ch in s:
@@ -266,7 +298,7 @@ class Lowerer:
         s = s.strip()
         # trailing reference / pointer
         if s.endswith('&&'):
-            return ('ref', self.ptype(s[:-2]))
+            return ('ref', self.ptype(s[:-2]), 'rvalue')
         if s.endswith('&'):
             return ('ref', self.ptype(s[:-1]))
         if s.endswith('*const'):
@@ -324,6 +356,14 @@ class Lowerer:
             return ('nullopt',)
         if name in self.enums and args is None:
             return ('enum', name)
+        if 'iterator' in name and name.startswith('std::'):
+            return ('iter',)
+        if name in ('std::map', 'std::unordered_map'):
+            return ('map', s)
+        if name == 'std::function':
+            return ('fn', s)
+        if name == 'std::pair':
+            return ('pair', s)
         if name.startswith('std::'):
             return ('lib', s)
         # PhQ record
@@ -514,6 +554,12 @@ class Lowerer:
             target = ('field', ft, selfl, fname)
             if not inner:
                 return []
+            if inner[0].get('kind') == 'CXXDefaultInitExpr' and not kids(inner[0]):
+                fd = self.ast.byid.get(fid)
+                inits = [x for x in kids(fd) if 'valueCategory' in x]
+                if not inits:
+                    raise Unsupported('default member initialiser of %s not in AST' % fname)
+                return self.init_into(target, inits[0])
             return self.init_into(target, inner[0])
         if 'baseInit' in c:
             bt = self.ptype(c['baseInit'].get('desugaredQualType') or c['baseInit']['qualType'])
@@ -585,7 +631,8 @@ class Lowerer:
                 if p == 'void' or not p:
                     continue
                 try:
-                    out.append(tstr(self.ptype(p)))
+                    pt = self.ptype(p)
+                    out.append(tstr(pt) + ('&' if len(pt) > 2 else ''))
                 except Unsupported:
                     out.append(self.norm_sig(p))
             return out
@@ -767,6 +814,8 @@ class Lowerer:
                 src = self.ntype(ch)
                 dst = self.ntype(n)
                 base = self.lv(ch)
+                if src[0] == 'iter':
+                    return base
                 return self.to_base(base, src, dst)
             raise Unsupported('lvalue cast %s' % ck)
         if k == 'MaterializeTemporaryExpr':
@@ -874,6 +923,15 @@ class Lowerer:
         fid = n.get('referencedMemberDecl')
         base = kids(n)[0]
         if fid not in self.field_owner:
+            if n.get('name') in ('second', 'first'):
+                it = self.iterator_of(base)
+                if it is not None:
+                    tbl = getattr(self.cur, 'last_table', None)
+                    if it[0] == 'lib' and it[2] == 'table_find':
+                        tbl = it[3][0]
+                    if tbl is None:
+                        raise Unsupported('iterator dereference with unknown table')
+                    return ('lib', self.ntype(n), 'iter_' + n['name'], [it, tbl])
             raise Unsupported('member %s is not an indexed field' % n.get('name'))
         owner, fname, ft = self.field_owner[fid]
         if n.get('isArrow'):
@@ -894,6 +952,8 @@ class Lowerer:
         if k == 'ConstantExpr' and 'value' in n:
             t = self.ntype(n)
             return ('const', t, int(n['value']))
+        if k == 'DeclRefExpr':
+            return self.declref(n)
         if cat in ('lvalue', 'xvalue') and k not in ('MaterializeTemporaryExpr',):
             return self.lv(n)
         if k == 'MaterializeTemporaryExpr':
@@ -950,12 +1010,7 @@ class Lowerer:
         raise Unsupported('rvalue of %s' % k)
 
     def strlit(self, n):
-        v = n.get('value', '""')
-        import json as _j
-        try:
-            return _j.loads(v)
-        except Exception:
-            return v.strip('"')
+        return c_unescape(n.get('value', '""'))
 
     def floatlit(self, n):
         t = self.ntype(n)
@@ -987,6 +1042,8 @@ class Lowerer:
                 src = self.ntype(ch)
                 l = self.to_base(self.deref(p), src[1], t[1])
                 return self.addr_of(l)
+            if t[0] == 'iter':
+                return self.rv(ch)
             return self.to_base(self.rv(ch), self.ntype(ch), t)
         if ck == 'ArrayToPointerDecay':
             c0 = self._skip(ch)
@@ -1016,7 +1073,7 @@ class Lowerer:
     def initlist(self, n):
         t = self.ntype(n)
         ks = list(kids(n))
-        if t[0] in ('f', 'i', 'bool', 'enum', 'ptr'):
+        if t[0] in ('f', 'i', 'bool', 'enum', 'ptr', 'iter'):
             if not ks:
                 return ('const', t, 0)
             return self.rv(ks[0])
@@ -1062,6 +1119,8 @@ class Lowerer:
             if len(args) == 1:
                 return self.rv(args[0])
             raise Unsupported('string_view construction')
+        if t[0] in ('iter', 'fn') and len(args) == 1:
+            return self.rv(args[0])
         if t[0] != 'rec':
             raise Unsupported('construction of %s' % (t,))
         ctor = self.find_ctor(n, t[1])
@@ -1186,6 +1245,41 @@ class Lowerer:
     def special_call(self, n, node, name, obj, args):
         return None
 
+    def iterator_of(self, base):
+        """base: expression `it.operator->()` (pointer to pair) -> IR value of the iterator."""
+        b = self._skip(base)
+        while b.get('kind') in ('ImplicitCastExpr', 'MaterializeTemporaryExpr'):
+            b = self._skip(kids(b)[0])
+        if b.get('kind') == 'CXXOperatorCallExpr':
+            rd, mem, cexpr = self.callee_of(b)
+            if (rd.get('name') or '') in ('operator->', 'operator*'):
+                a = self._skip(list(kids(b))[1])
+                while a.get('kind') in ('ImplicitCastExpr', 'MaterializeTemporaryExpr') and \
+                        a.get('castKind', 'NoOp') in ('NoOp', 'UncheckedDerivedToBase', 'DerivedToBase'):
+                    a = self._skip(kids(a)[0])
+                return self.rv(a)
+        return None
+
+    def table_const(self, b):
+        """b: DeclRefExpr naming a table variable -> ('table', ('map',..), tid)."""
+        b = self._skip(b)
+        while b.get('kind') == 'ImplicitCastExpr':
+            b = self._skip(kids(b)[0])
+        if b.get('kind') != 'DeclRefExpr':
+            raise Unsupported('map object is not a named table (%s)' % b.get('kind'))
+        rid = b['referencedDecl']['id']
+        T = self.get_tables()
+        if rid not in T.by_id:
+            raise Unsupported('table %s has no initialiser in this TU' % b['referencedDecl'].get('name'))
+        name, args = T.by_id[rid]
+        return ('table', self.ntype(b), '%s<%s>' % (name, ', '.join(args)))
+
+    def get_tables(self):
+        if getattr(self, '_tables', None) is None:
+            from .tables import Tables
+            self._tables = Tables(self)
+        return self._tables
+
     MATH1 = {'sqrt', 'acos', 'cbrt', 'exp', 'log', 'log2', 'log10', 'abs', 'fabs', 'sqrtf', 'sqrtl', 'acosf', 'acosl',
              'asin', 'atan', 'cos', 'sin', 'tan'}
 
@@ -1219,6 +1313,35 @@ class Lowerer:
                     return ('lib', ('ptr', base_t[1]), 'vec_data', [self.addr_of(l)])
                 if name == 'size':
                     return ('lib', SIZE_T, 'vec_size', [self.addr_of(l)])
+            if base_t[0] == 'map':
+                tbl = self.table_const(b)
+                self.cur.libs.add('table:' + tbl[2])
+                self.cur.last_table = tbl
+                if name == 'find':
+                    return ('lib', ('iter',), 'table_find', [tbl, self.rv(args[0])])
+                if name in ('cend', 'end'):
+                    return ('lib', ('iter',), 'table_end', [tbl])
+                if name == 'at':
+                    return ('lib', t if t[0] != 'ref' else t[1], 'table_at', [tbl, self.rv(args[0])])
+                raise Unsupported('std::map member %s' % name)
+            if base_t[0] == 'fn' and name == 'operator()':
+                fv = self.rv(b) if kind == 'L' else self.deref(b)
+                if fv[0] == 'lib' and fv[2] == 'iter_second' and fv[3][0][0] == 'lib' and fv[3][0][2] == 'table_find':
+                    tbl, key = fv[3][0][3]
+                    T = self.get_tables()
+                    nm, targs = tbl[2].split('<', 1)
+                    rows = T.rows(nm, tuple(x.strip() for x in split_targs(targs[:-1])))
+                    for kk, vv in rows:
+                        if vv[0] != 'func':
+                            raise Unsupported('dispatch table %s row is not a function' % tbl[2])
+                        g = self.func_for(vv[1])
+                        if g.outside:
+                            raise Unsupported('dispatch target %s: %s' % (g.qualname, g.outside))
+                        self.note_callee(g)
+                    return ('lib', t, 'table_dispatch', [tbl, key] + [self.rv(a) for a in args])
+                raise Unsupported('std::function call that is not TABLE.find(k)->second(...)')
+            if base_t[0] == 'iter':
+                raise Unsupported('iterator member %s' % name)
             if base_t[0] in ('str', 'strview', 'ostream') or (base_t[0] == 'lib'):
                 return self.str_call(n, name, obj, args)
             raise Unsupported('library member %s on %s' % (name, tstr(base_t)))
@@ -1232,6 +1355,8 @@ class Lowerer:
             return ('lib', t, 'pow', [self.rv(args[0]), self.rv(args[1])])
         if name in ('move', 'forward') and len(args) == 1:
             return self.lv(args[0]) if cat != 'prvalue' else self.rv(args[0])
+        if name in ('operator==', 'operator!=') and len(args) == 2 and self.ntype(args[0])[0] == 'iter':
+            return ('bin', BOOL, name[-2:], self.rv(args[0]), self.rv(args[1]))
         if name in ('operator+', 'operator<<', 'to_string', 'operator==', 'operator!='):
             return self.str_call(n, name, obj, args)
         raise Unsupported('library function %s %s' % (name, rd.get('type', {}).get('qualType')))
